@@ -12,10 +12,10 @@ Local Open Scope R_scope.
     valuation of the leaves: after the real run, EVERY recorded triple is a genuine sample of its
     function at the values the run gave to the leaves.  Programs may contain proximal steps ([MProx], the
     model of PEPit.primitive_steps.proximal_step) on the functions of the world that have a proximal
-    operator ([prox_ok]; [mwf] asks for a positive step size). *)
+    operator ([steps_ok]; [mwf] asks for a positive step size). *)
 Theorem C09_recorded_samples_are_genuine :
   forall (E : ips) (W : @world E) (ops : list mop) (vs : (nat -> E) * (nat -> R)),
-    mwf ops minit = true -> prox_ok W ops = true ->
+    mwf ops minit = true -> steps_ok W ops = true ->
     forall f t, In (f, t) (m_samples (mrun ops minit)) ->
       Gen W f (sample_at (E := E) (fst (wrun W ops minit vs)) (snd (wrun W ops minit vs)) t).
 Proof.
@@ -82,11 +82,13 @@ Proof. exact (@performance_bounded). Qed.
 Theorem C09_run_satisfies_class_constraints_smooth_strongly_convex :
   forall (E : ips) (mu L : R) (qmu qL : Q) (F : @dfn E) (xs : E)
          (Hxs : veq (dgrad F xs) vzero) (Hext : respects_veq F) (hp : bool) (res : R -> E -> E) (Hres : prox_spec (genuine_grad F) (dval F) hp res)
+         (ie : bool -> R -> E -> E) (Hie : inexact_spec (dgrad F) ie)
+         (hs : bool) (ls : E -> list E -> E) (Hls : ls_spec (dgrad F) hs ls)
          (ops : list mop) (vs : (nat -> E) * (nat -> R)),
     0 <= mu < L -> smooth_strongly_convex_member mu L F ->
     Q2R qL = L -> Q2R qmu = mu ->
     mwf ops minit = true -> Forall op_nodup ops ->
-    let W := dfn_world F xs Hxs Hext hp res Hres in prox_ok W ops = true ->
+    let W := dfn_world F xs Hxs Hext hp res Hres ie Hie hs ls Hls in steps_ok W ops = true ->
     let par := fun p => match p with 0%nat => qL | 1%nat => qmu | _ => 0%Q end in
     all_satisfied (fst (wrun W ops minit vs)) (snd (wrun W ops minit vs))
       (run_plan plan_SmoothStronglyConvexFunction (fstate_of par (mrun ops minit) 0)).
@@ -97,7 +99,7 @@ Theorem C09_run_satisfies_class_constraints_convex :
          (xs : E) (Hxs : subgrad F xs vzero) (Hext : fn_respects_veq F) (hp : bool) (res : R -> E -> E) (Hres : prox_spec (genuine_sub F) (val F) hp res)
          (ops : list mop) (vs : (nat -> E) * (nat -> R)),
     mwf ops minit = true -> Forall op_nodup ops ->
-    let W := fn_world F sel Hsel xs Hxs Hext hp res Hres in prox_ok W ops = true ->
+    let W := fn_world F sel Hsel xs Hxs Hext hp res Hres in steps_ok W ops = true ->
     all_satisfied (fst (wrun W ops minit vs)) (snd (wrun W ops minit vs))
       (run_plan plan_ConvexFunction (fstate_of (fun _ => 0%Q) (mrun ops minit) 0)).
 Proof. exact (@run_satisfies_convex). Qed.
@@ -133,9 +135,12 @@ Print Assumptions C09_run_satisfies_class_constraints_convex.
     Not composed: SmoothStronglyConvexQuadraticFunction, BlockSmoothConvexFunction. *)
 From PV Require Import Proofs.C04Lemmas Proofs.C09ComposeAll.
 
-(** every recorded stationary sample (empty gradient dictionary) is valued at the world's stationary point *)
+(** every recorded stationary sample (empty gradient dictionary) is valued at the world's stationary point
+    (provided no linear-optimization step is taken along the zero direction: such a step records an empty
+    gradient dictionary at a point of the set that need not be the stationary point) *)
 Theorem C09_stationary_samples_at_stationary_point :
   forall (E : ips) (W : @world E) (ops : list mop) (vs : (nat -> E) * (nat -> R)) (par : nat -> Q) (f : nat) sm,
+    forallb linopt_dir_nonzero ops = true ->
     In sm (f_stat (fstate_of par (mrun ops minit) f)) ->
     In sm (f_points (fstate_of par (mrun ops minit) f)) /\ s_g sm = [] /\
     veq (px (fst (wrun W ops minit vs)) sm) (fst (stat W f)).
@@ -145,9 +150,11 @@ Print Assumptions C09_stationary_samples_at_stationary_point.
 Theorem C09_run_satisfies_class_constraints_smooth_convex :
   forall (E : ips) (F : @dfn E) (xs : E) (Hxs : veq (dgrad F xs) vzero) (Hext : respects_veq F)
          (hp : bool) (res : R -> E -> E) (Hres : prox_spec (genuine_grad F) (dval F) hp res)
+         (ie : bool -> R -> E -> E) (Hie : inexact_spec (dgrad F) ie)
+         (hs : bool) (ls : E -> list E -> E) (Hls : ls_spec (dgrad F) hs ls)
          (ops : list mop) (vs : (nat -> E) * (nat -> R)),
     mwf ops minit = true -> Forall op_nodup ops ->
-    let W := dfn_world F xs Hxs Hext hp res Hres in prox_ok W ops = true ->
+    let W := dfn_world F xs Hxs Hext hp res Hres ie Hie hs ls Hls in steps_ok W ops = true ->
     forall (L : R) (qL : Q), 0 < L -> smooth_convex_member L F -> Q2R qL = L ->
         all_satisfied (fst (wrun W ops minit vs)) (snd (wrun W ops minit vs))
       (run_plan plan_SmoothConvexFunction (fstate_of (par_at 0 qL) (mrun ops minit) 0)).
@@ -157,9 +164,11 @@ Print Assumptions C09_run_satisfies_class_constraints_smooth_convex.
 Theorem C09_run_satisfies_class_constraints_smooth :
   forall (E : ips) (F : @dfn E) (xs : E) (Hxs : veq (dgrad F xs) vzero) (Hext : respects_veq F)
          (hp : bool) (res : R -> E -> E) (Hres : prox_spec (genuine_grad F) (dval F) hp res)
+         (ie : bool -> R -> E -> E) (Hie : inexact_spec (dgrad F) ie)
+         (hs : bool) (ls : E -> list E -> E) (Hls : ls_spec (dgrad F) hs ls)
          (ops : list mop) (vs : (nat -> E) * (nat -> R)),
     mwf ops minit = true -> Forall op_nodup ops ->
-    let W := dfn_world F xs Hxs Hext hp res Hres in prox_ok W ops = true ->
+    let W := dfn_world F xs Hxs Hext hp res Hres ie Hie hs ls Hls in steps_ok W ops = true ->
     forall (L : R) (qL : Q), 0 < L -> smooth_member L F -> Q2R qL = L ->
         all_satisfied (fst (wrun W ops minit vs)) (snd (wrun W ops minit vs))
       (run_plan plan_SmoothFunction (fstate_of (par_at 0 qL) (mrun ops minit) 0)).
@@ -169,9 +178,11 @@ Print Assumptions C09_run_satisfies_class_constraints_smooth.
 Theorem C09_run_satisfies_class_constraints_smooth_convex_lipschitz :
   forall (E : ips) (F : @dfn E) (xs : E) (Hxs : veq (dgrad F xs) vzero) (Hext : respects_veq F)
          (hp : bool) (res : R -> E -> E) (Hres : prox_spec (genuine_grad F) (dval F) hp res)
+         (ie : bool -> R -> E -> E) (Hie : inexact_spec (dgrad F) ie)
+         (hs : bool) (ls : E -> list E -> E) (Hls : ls_spec (dgrad F) hs ls)
          (ops : list mop) (vs : (nat -> E) * (nat -> R)),
     mwf ops minit = true -> Forall op_nodup ops ->
-    let W := dfn_world F xs Hxs Hext hp res Hres in prox_ok W ops = true ->
+    let W := dfn_world F xs Hxs Hext hp res Hres ie Hie hs ls Hls in steps_ok W ops = true ->
     forall (L M : R) (qL qM : Q),
     0 < L -> 0 <= M -> smooth_convex_lipschitz_member L M F -> Q2R qL = L -> Q2R qM = M ->
         all_satisfied (fst (wrun W ops minit vs)) (snd (wrun W ops minit vs))
@@ -183,9 +194,11 @@ Print Assumptions C09_run_satisfies_class_constraints_smooth_convex_lipschitz.
 Theorem C09_run_satisfies_class_constraints_rsi_eb :
   forall (E : ips) (F : @dfn E) (xs : E) (Hxs : veq (dgrad F xs) vzero) (Hext : respects_veq F)
          (hp : bool) (res : R -> E -> E) (Hres : prox_spec (genuine_grad F) (dval F) hp res)
+         (ie : bool -> R -> E -> E) (Hie : inexact_spec (dgrad F) ie)
+         (hs : bool) (ls : E -> list E -> E) (Hls : ls_spec (dgrad F) hs ls)
          (ops : list mop) (vs : (nat -> E) * (nat -> R)),
     mwf ops minit = true -> Forall op_nodup ops ->
-    let W := dfn_world F xs Hxs Hext hp res Hres in prox_ok W ops = true ->
+    let W := dfn_world F xs Hxs Hext hp res Hres ie Hie hs ls Hls in steps_ok W ops = true ->
     forall (mu L : R) (qmu qL : Q),
     rsi_eb_member mu L F xs -> Q2R qL = L -> Q2R qmu = mu -> In (MStat 0) ops ->
         all_satisfied (fst (wrun W ops minit vs)) (snd (wrun W ops minit vs))
@@ -198,7 +211,7 @@ Theorem C09_run_satisfies_class_constraints_convex_lipschitz :
          (xs : E) (Hxs : subgrad F xs vzero) (Hext : fn_respects_veq F) (hp : bool) (res : R -> E -> E) (Hres : prox_spec (genuine_sub F) (val F) hp res)
          (ops : list mop) (vs : (nat -> E) * (nat -> R)),
     mwf ops minit = true -> Forall op_nodup ops ->
-    let W := fn_world F sel Hsel xs Hxs Hext hp res Hres in prox_ok W ops = true ->
+    let W := fn_world F sel Hsel xs Hxs Hext hp res Hres in steps_ok W ops = true ->
     forall (M : R) (qM : Q), 0 <= M -> lipschitz_fn M F -> Q2R qM = M ->
         all_satisfied (fst (wrun W ops minit vs)) (snd (wrun W ops minit vs))
       (run_plan plan_ConvexLipschitzFunction (fstate_of (par_at 2 qM) (mrun ops minit) 0)).
@@ -211,7 +224,7 @@ Theorem C09_run_satisfies_class_constraints_convex_qg :
          (xs : E) (Hxs : subgrad F xs vzero) (Hext : fn_respects_veq F) (hp : bool) (res : R -> E -> E) (Hres : prox_spec (genuine_sub F) (val F) hp res)
          (ops : list mop) (vs : (nat -> E) * (nat -> R)),
     mwf ops minit = true -> Forall op_nodup ops ->
-    let W := fn_world F sel Hsel xs Hxs Hext hp res Hres in prox_ok W ops = true ->
+    let W := fn_world F sel Hsel xs Hxs Hext hp res Hres in steps_ok W ops = true ->
     forall (L : R) (qL : Q), 0 < L -> qg_member L F -> Q2R qL = L -> In (MStat 0) ops ->
         all_satisfied (fst (wrun W ops minit vs)) (snd (wrun W ops minit vs))
       (run_plan plan_ConvexQGFunction (fstate_of (par_at 0 qL) (mrun ops minit) 0)).
@@ -222,9 +235,10 @@ Print Assumptions C09_run_satisfies_class_constraints_convex_qg.
 Theorem C09_run_satisfies_class_constraints_strongly_convex :
   forall (E : ips) (F : @fn E) (sel : E -> E) (Hsel : forall x, dom F x -> subgrad F x (sel x))
          (xs : E) (Hxs : subgrad F xs vzero) (Hext : fn_respects_veq F) (hp : bool) (res : R -> E -> E) (Hres : prox_spec (genuine_sub F) (val F) hp res)
+         (hl : bool) (lm : E -> E) (Hlm : lmo_spec (genuine_sub F) (val F) hl lm)
          (ops : list mop) (vs : (nat -> E) * (nat -> R)),
     mwf ops minit = true -> Forall op_nodup ops ->
-    let W := pfn_world F sel Hsel xs Hxs Hext hp res Hres in prox_ok W ops = true ->
+    let W := pfn_world F sel Hsel xs Hxs Hext hp res Hres hl lm Hlm in steps_ok W ops = true ->
     forall (mu : R) (qmu : Q), 0 <= mu -> strongly_convex_member mu F -> Q2R qmu = mu ->
         (forall sm, In sm (f_points (fstate_of (par_at 1 qmu) (mrun ops minit) 0)) -> dom F (px (fst (wrun W ops minit vs)) sm)) ->
     all_satisfied (fst (wrun W ops minit vs)) (snd (wrun W ops minit vs))
@@ -236,9 +250,10 @@ Print Assumptions C09_run_satisfies_class_constraints_strongly_convex.
 Theorem C09_run_satisfies_class_constraints_convex_indicator :
   forall (E : ips) (F : @fn E) (sel : E -> E) (Hsel : forall x, dom F x -> subgrad F x (sel x))
          (xs : E) (Hxs : subgrad F xs vzero) (Hext : fn_respects_veq F) (hp : bool) (res : R -> E -> E) (Hres : prox_spec (genuine_sub F) (val F) hp res)
+         (hl : bool) (lm : E -> E) (Hlm : lmo_spec (genuine_sub F) (val F) hl lm)
          (ops : list mop) (vs : (nat -> E) * (nat -> R)),
     mwf ops minit = true -> Forall op_nodup ops ->
-    let W := pfn_world F sel Hsel xs Hxs Hext hp res Hres in prox_ok W ops = true ->
+    let W := pfn_world F sel Hsel xs Hxs Hext hp res Hres hl lm Hlm in steps_ok W ops = true ->
     forall (D : option R) (qD : Q), indicator_member D F -> (forall d, D = Some d -> Q2R qD = d) ->
         (forall sm, In sm (f_points (fstate_of (par_at 3 qD) (mrun ops minit) 0)) -> dom F (px (fst (wrun W ops minit vs)) sm)) ->
     all_satisfied (fst (wrun W ops minit vs)) (snd (wrun W ops minit vs))
@@ -256,7 +271,7 @@ Theorem C09_run_satisfies_class_constraints_convex_support :
          (M : option R) (qM : Q) (ops : list mop) (vs : (nat -> E) * (nat -> R)),
     support_member M C sigma -> (forall m, M = Some m -> Q2R qM = m) ->
     mwf ops minit = true -> Forall op_nodup ops ->
-    let W := support_world C sigma sel Hsel xs Hzero Hxs HCext Hsext hp res Hres in prox_ok W ops = true ->
+    let W := support_world C sigma sel Hsel xs Hzero Hxs HCext Hsext hp res Hres in steps_ok W ops = true ->
     all_satisfied (fst (wrun W ops minit vs)) (snd (wrun W ops minit vs))
       (run_plan plan_ConvexSupportFunction (set_inf (inf_flag 2 M) (fstate_of (par_at 2 qM) (mrun ops minit) 0))).
 Proof. exact (@run_satisfies_convex_support). Qed.
@@ -268,7 +283,7 @@ Theorem C09_run_satisfies_class_constraints_monotone :
          (Hext : graph_respects_veq A) (hp : bool) (res : R -> E -> E) (Hres : prox_spec (genuine_op A) (fun _ => 0) hp res)
          (ops : list mop) (vs : (nat -> E) * (nat -> R)),
     mwf ops minit = true -> Forall op_nodup ops ->
-    let W := graph_world A T HT xs Hxs Hext hp res Hres in prox_ok W ops = true -> monotone_op A ->
+    let W := graph_world A T HT xs Hxs Hext hp res Hres in steps_ok W ops = true -> monotone_op A ->
         all_satisfied (fst (wrun W ops minit vs)) (snd (wrun W ops minit vs))
       (run_plan plan_MonotoneOperator (fstate_of (fun _ => 0%Q) (mrun ops minit) 0)).
 Proof. exact (@run_satisfies_monotone). Qed.
@@ -279,7 +294,7 @@ Theorem C09_run_satisfies_class_constraints_strongly_monotone :
          (Hext : graph_respects_veq A) (hp : bool) (res : R -> E -> E) (Hres : prox_spec (genuine_op A) (fun _ => 0) hp res)
          (ops : list mop) (vs : (nat -> E) * (nat -> R)),
     mwf ops minit = true -> Forall op_nodup ops ->
-    let W := graph_world A T HT xs Hxs Hext hp res Hres in prox_ok W ops = true ->
+    let W := graph_world A T HT xs Hxs Hext hp res Hres in steps_ok W ops = true ->
     forall (mu : R) (qmu : Q), strongly_monotone_op mu A -> Q2R qmu = mu ->
         all_satisfied (fst (wrun W ops minit vs)) (snd (wrun W ops minit vs))
       (run_plan plan_StronglyMonotoneOperator (fstate_of (par_at 1 qmu) (mrun ops minit) 0)).
@@ -291,7 +306,7 @@ Theorem C09_run_satisfies_class_constraints_cocoercive :
          (Hext : graph_respects_veq A) (hp : bool) (res : R -> E -> E) (Hres : prox_spec (genuine_op A) (fun _ => 0) hp res)
          (ops : list mop) (vs : (nat -> E) * (nat -> R)),
     mwf ops minit = true -> Forall op_nodup ops ->
-    let W := graph_world A T HT xs Hxs Hext hp res Hres in prox_ok W ops = true ->
+    let W := graph_world A T HT xs Hxs Hext hp res Hres in steps_ok W ops = true ->
     forall (beta : R) (qbeta : Q), cocoercive_op beta A -> Q2R qbeta = beta ->
         all_satisfied (fst (wrun W ops minit vs)) (snd (wrun W ops minit vs))
       (run_plan plan_CocoerciveOperator (fstate_of (par_at 4 qbeta) (mrun ops minit) 0)).
@@ -303,7 +318,7 @@ Theorem C09_run_satisfies_class_constraints_negatively_comonotone :
          (Hext : graph_respects_veq A) (hp : bool) (res : R -> E -> E) (Hres : prox_spec (genuine_op A) (fun _ => 0) hp res)
          (ops : list mop) (vs : (nat -> E) * (nat -> R)),
     mwf ops minit = true -> Forall op_nodup ops ->
-    let W := graph_world A T HT xs Hxs Hext hp res Hres in prox_ok W ops = true ->
+    let W := graph_world A T HT xs Hxs Hext hp res Hres in steps_ok W ops = true ->
     forall (rh : R) (qrho : Q), neg_comonotone_op rh A -> Q2R qrho = rh ->
         all_satisfied (fst (wrun W ops minit vs)) (snd (wrun W ops minit vs))
       (run_plan plan_NegativelyComonotoneOperator (fstate_of (par_at 5 qrho) (mrun ops minit) 0)).
@@ -315,7 +330,7 @@ Theorem C09_run_satisfies_class_constraints_lipschitz :
          (Hext : graph_respects_veq A) (hp : bool) (res : R -> E -> E) (Hres : prox_spec (genuine_op A) (fun _ => 0) hp res)
          (ops : list mop) (vs : (nat -> E) * (nat -> R)),
     mwf ops minit = true -> Forall op_nodup ops ->
-    let W := graph_world A T HT xs Hxs Hext hp res Hres in prox_ok W ops = true ->
+    let W := graph_world A T HT xs Hxs Hext hp res Hres in steps_ok W ops = true ->
     forall (L : R) (qL : Q), lipschitz_op L A -> Q2R qL = L ->
         all_satisfied (fst (wrun W ops minit vs)) (snd (wrun W ops minit vs))
       (run_plan plan_LipschitzOperator (fstate_of (par_at 0 qL) (mrun ops minit) 0)).
@@ -328,7 +343,7 @@ Theorem C09_run_satisfies_class_constraints_nonexpansive :
          (Hext : graph_respects_veq A) (hp : bool) (res : R -> E -> E) (Hres : prox_spec (genuine_op A) (fun _ => 0) hp res)
          (ops : list mop) (vs : (nat -> E) * (nat -> R)),
     mwf ops minit = true -> Forall op_nodup ops ->
-    let W := graph_world A T HT xs Hxs Hext hp res Hres in prox_ok W ops = true -> nonexpansive_op A ->
+    let W := graph_world A T HT xs Hxs Hext hp res Hres in steps_ok W ops = true -> nonexpansive_op A ->
         all_satisfied (fst (wrun W ops minit vs)) (snd (wrun W ops minit vs))
       (run_plan plan_NonexpansiveOperator (fstate_of (fun _ => 0%Q) (mrun ops minit) 0)).
 Proof. exact (@run_satisfies_nonexpansive). Qed.
@@ -339,7 +354,7 @@ Theorem C09_run_satisfies_class_constraints_lipschitz_strongly_monotone :
          (Hext : graph_respects_veq A) (hp : bool) (res : R -> E -> E) (Hres : prox_spec (genuine_op A) (fun _ => 0) hp res)
          (ops : list mop) (vs : (nat -> E) * (nat -> R)),
     mwf ops minit = true -> Forall op_nodup ops ->
-    let W := graph_world A T HT xs Hxs Hext hp res Hres in prox_ok W ops = true ->
+    let W := graph_world A T HT xs Hxs Hext hp res Hres in steps_ok W ops = true ->
     forall (mu L : R) (qmu qL : Q), lipschitz_strongly_monotone_op mu L A -> Q2R qL = L -> Q2R qmu = mu ->
         all_satisfied (fst (wrun W ops minit vs)) (snd (wrun W ops minit vs))
       (run_plan plan_LipschitzStronglyMonotoneOperator (fstate_of (par_at2 0 qL 1 qmu) (mrun ops minit) 0)).
@@ -351,7 +366,7 @@ Theorem C09_run_satisfies_class_constraints_cocoercive_strongly_monotone :
          (Hext : graph_respects_veq A) (hp : bool) (res : R -> E -> E) (Hres : prox_spec (genuine_op A) (fun _ => 0) hp res)
          (ops : list mop) (vs : (nat -> E) * (nat -> R)),
     mwf ops minit = true -> Forall op_nodup ops ->
-    let W := graph_world A T HT xs Hxs Hext hp res Hres in prox_ok W ops = true ->
+    let W := graph_world A T HT xs Hxs Hext hp res Hres in steps_ok W ops = true ->
     forall (mu beta : R) (qmu qbeta : Q), cocoercive_strongly_monotone_op mu beta A -> Q2R qmu = mu -> Q2R qbeta = beta ->
         all_satisfied (fst (wrun W ops minit vs)) (snd (wrun W ops minit vs))
       (run_plan plan_CocoerciveStronglyMonotoneOperator (fstate_of (par_at2 1 qmu 4 qbeta) (mrun ops minit) 0)).
@@ -363,7 +378,7 @@ Theorem C09_run_satisfies_class_constraints_symmetric_linear :
   forall (E : ips) (M : E -> E) (HM : linear M) (hp : bool) (res : R -> E -> E) (Hres : prox_spec (genuine_lin M) (fun _ => 0) hp res)
          (ops : list mop) (vs : (nat -> E) * (nat -> R)),
     mwf ops minit = true -> Forall op_nodup ops ->
-    let W := lin_world M HM hp res Hres in prox_ok W ops = true ->
+    let W := lin_world M HM hp res Hres in steps_ok W ops = true ->
     forall (mu L : R) (qmu qL : Q), sa_bounded mu L M -> Q2R qL = L -> Q2R qmu = mu ->
         all_satisfied (fst (wrun W ops minit vs)) (snd (wrun W ops minit vs))
       (run_plan plan_SymmetricLinearOperator (fstate_of (par_at2 0 qL 1 qmu) (mrun ops minit) 0)).
@@ -374,7 +389,7 @@ Theorem C09_run_satisfies_class_constraints_skew_symmetric_linear :
   forall (E : ips) (M : E -> E) (HM : linear M) (hp : bool) (res : R -> E -> E) (Hres : prox_spec (genuine_lin M) (fun _ => 0) hp res)
          (ops : list mop) (vs : (nat -> E) * (nat -> R)),
     mwf ops minit = true -> Forall op_nodup ops ->
-    let W := lin_world M HM hp res Hres in prox_ok W ops = true ->
+    let W := lin_world M HM hp res Hres in steps_ok W ops = true ->
     forall (L : R) (qL : Q), skew_bounded L M -> Q2R qL = L ->
         all_satisfied (fst (wrun W ops minit vs)) (snd (wrun W ops minit vs))
       (run_plan plan_SkewSymmetricLinearOperator (fstate_of (par_at 0 qL) (mrun ops minit) 0)).
@@ -387,7 +402,7 @@ Theorem C09_run_satisfies_class_constraints_linear :
          (ops : list mop) (vs : (nat -> E) * (nat -> R)),
     bounded_pair L M Mt -> Q2R qL = L ->
     mwf ops minit = true -> Forall op_nodup ops ->
-    let W := lin2_world M Mt HM HMt in prox_ok W ops = true ->
+    let W := lin2_world M Mt HM HMt in steps_ok W ops = true ->
     all_satisfied (fst (wrun W ops minit vs)) (snd (wrun W ops minit vs))
       (run_plan plan_LinearOperator (fstate_of2 (par_at 0 qL) (mrun ops minit) 0 1)).
 Proof. exact (@run_satisfies_linear). Qed.
@@ -407,10 +422,10 @@ Proof. cbv zeta. split; [|split]; vm_compute; reflexivity. Qed.
     leaf, the recorded point is the combination p - gamma * gx).  In the real run the subgradient leaf gets
     (x0 - prox)/gamma and the value leaf the value at the proximal point, so that the recorded point evaluates to
     the proximal point.  Every theorem above quantifies over all programs, proximal steps included, for worlds
-    given a proximal operator ([hp = true] and [prox_spec ... res]); with [hp = false], [prox_ok] says that the
+    given a proximal operator ([hp = true] and [prox_spec ... res]); with [hp = false], [steps_ok] says that the
     program takes no proximal step.  For a convex function the specification [prox_spec] is met by its proximal
     operator in the usual sense (minimiser of gamma F + 1/2 |. - x0|^2): this is C08's optimality theorem. *)
-From PV Require Spec.StepsSpec.
+From PV Require Spec.StepsSpec Proofs.DictLemmas.
 From PV Require Import Proofs.C09Prox.
 
 Theorem C09_proximal_operator_meets_specification :
@@ -426,7 +441,7 @@ Print Assumptions C09_proximal_operator_meets_specification.
     recorded point is valued x0/6, and the two convexity constraints generated from the samples hold. *)
 Example C09_proximal_point_example :
   forall vs : (nat -> R1) * (nat -> R),
-  mwf prox_point_program minit = true /\ prox_ok sq_world prox_point_program = true /\
+  mwf prox_point_program minit = true /\ steps_ok sq_world prox_point_program = true /\
   Forall op_nodup prox_point_program /\
   List.length (m_samples (mrun prox_point_program minit)) = 2%nat /\
   List.length (g_cons (run_plan plan_ConvexFunction (fstate_of (fun _ => 0%Q) (mrun prox_point_program minit) 0))) = 2%nat /\
@@ -435,3 +450,112 @@ Example C09_proximal_point_example :
   all_satisfied (fst (wrun sq_world prox_point_program minit vs)) (snd (wrun sq_world prox_point_program minit vs))
     (run_plan plan_ConvexFunction (fstate_of (fun _ => 0%Q) (mrun prox_point_program minit) 0)).
 Proof. exact proximal_point_example. Qed.
+
+(** * Frank-Wolfe-type methods
+
+    [MLinOpt f dir] models  x, gx, fx = linear_optimization_step(dir, f)  (one fresh POINT leaf, one fresh value leaf,
+    the recorded "gradient" is the dictionary of -dir).  In the real run the point leaf gets a minimiser of <d, .>
+    over the set (the world's linear minimisation oracle, [lmo_genuine]) and the value leaf the value there.
+    [steps_ok] asks that such steps are taken only on functions of the world that have the oracle ([pfn_world] with
+    [hl = true]: ConvexIndicatorFunction, StronglyConvexFunction theorems above).  For the indicator of a set the
+    specification is met by any minimiser of <d, .> over the set: C08's normal-cone theorem. *)
+Theorem C09_linear_minimisation_oracle_meets_specification :
+  forall (E : ips) (F : @fn E) (lm : E -> E),
+    (forall z, dom F z -> val F z = 0) ->
+    (forall d, StepsSpec.is_linopt F d (lm d)) ->
+    lmo_spec (genuine_sub F) (val F) true lm.
+Proof. exact (@is_linopt_spec). Qed.
+Print Assumptions C09_linear_minimisation_oracle_meets_specification.
+
+(** Non-vacuity: x0 = Point() in [-1, 1]; d = Point(); s, _, _ = linear_optimization_step(d, ind);
+    ind.oracle((x0 + s)/2), in the world "indicator of [-1, 1]" with lmo(d) = -1 if d >= 0 else 1 *)
+Example C09_frank_wolfe_example :
+  forall vs : (nat -> R1) * (nat -> R),
+  -1 <= fst vs 0%nat <= 1 ->
+  mwf frank_wolfe_program minit = true /\ steps_ok box_world frank_wolfe_program = true /\
+  Forall op_nodup frank_wolfe_program /\
+  List.length (m_samples (mrun frank_wolfe_program minit)) = 2%nat /\
+  fst (wrun box_world frank_wolfe_program minit vs) 2%nat = box_lm (Q2R 1 * fst vs 1%nat + 0) /\
+  List.length (g_cons (run_plan plan_ConvexIndicatorFunction
+     (set_inf (inf_flag 3 (Some 2)) (fstate_of (par_at 3 2%Q) (mrun frank_wolfe_program minit) 0)))) = 6%nat /\
+  all_satisfied (fst (wrun box_world frank_wolfe_program minit vs)) (snd (wrun box_world frank_wolfe_program minit vs))
+    (run_plan plan_ConvexIndicatorFunction
+       (set_inf (inf_flag 3 (Some 2)) (fstate_of (par_at 3 2%Q) (mrun frank_wolfe_program minit) 0))).
+Proof. exact frank_wolfe_example. Qed.
+
+(** * Inexact gradient methods
+
+    [MInexact f p relative eps] models  x, dx0, fx0 = inexact_gradient_step(p, f, gamma, eps, notion): the oracle call
+    at p (recorded as for [MEval]), the fresh direction leaf dx0, and the accuracy constraint
+    (gx0 - dx0)^2 - eps^2 [* gx0^2] <= 0  added to the function ([m_cons]; the constraint dictionary is compared with
+    the real step's by the recording stream).  In the real run dx0 is valued by the world's inexact oracle
+    ([inexact], within the accuracy of the exact output: [inexact_bound]; [dfn_world] takes any such oracle
+    [ie], the other worlds use the exact output).  The theorems above cover these programs (no flag is needed:
+    every world has an inexact oracle), and every constraint the steps (inexact gradient steps, exact line
+    searches) added to the functions holds at the values of the run: *)
+Theorem C09_recorded_step_constraints_hold :
+  forall (E : ips) (W : @world E) (ops : list mop) (vs : (nat -> E) * (nat -> R)) (f : nat) (c : edict * sense),
+    mwf ops minit = true -> steps_ok W ops = true ->
+    In (f, c) (m_cons (mrun ops minit)) ->
+    holds (fst (wrun W ops minit vs)) (snd (wrun W ops minit vs)) c.
+Proof. exact (@world_constraints_hold). Qed.
+Print Assumptions C09_recorded_step_constraints_hold.
+
+(** what the recorded accuracy constraint means under any valuation (gx0 is leaf n, dx0 leaf S n) *)
+Theorem C09_inexact_constraint_meaning :
+  forall (E : ips) (rho : nat -> E) (phi : nat -> R) (n : nat) (relative : bool) (eps : Q),
+    holds rho phi (inexact_cons n relative eps) <->
+    nrm2 (vsub (rho n) (rho (S n))) <= Q2R eps ^ 2 * (if relative then nrm2 (rho n) else 1).
+Proof. exact (@inexact_cons_holds). Qed.
+Print Assumptions C09_inexact_constraint_meaning.
+
+(** Non-vacuity: x0 = Point(); inexact_gradient_step(x0, f, gamma, 1/2, 'absolute') on f(x) = x^2 with the inexact
+    oracle d = 2x + eps *)
+Example C09_inexact_gradient_example :
+  forall vs : (nat -> R1) * (nat -> R),
+  mwf inexact_program minit = true /\ steps_ok sq_inexact_world inexact_program = true /\
+  List.length (m_samples (mrun inexact_program minit)) = 1%nat /\
+  m_np (mrun inexact_program minit) = 3%nat /\
+  fst (wrun sq_inexact_world inexact_program minit vs) 2%nat = sq_ie false (Q2R (1 # 2)) (Q2R 1 * fst vs 0%nat + 0) /\
+  (exists c, m_cons (mrun inexact_program minit) = [(0%nat, c)] /\
+             holds (fst (wrun sq_inexact_world inexact_program minit vs)) (snd (wrun sq_inexact_world inexact_program minit vs)) c).
+Proof. exact inexact_gradient_example. Qed.
+
+(** * Exact line searches
+
+    [MLineSearch f x0 dirs] models  x, gx, fx = exact_linesearch_step(x0, f, dirs): the fresh POINT leaf x, the oracle
+    call at it, and the constraints (x - x0) * gx == 0 and d * gx == 0 (one per direction) added to the function.  In
+    the real run x is valued by the world's line search ([ls_orth]; [dfn_world] with [hs = true]), then the
+    gradient / value leaves by the oracle there.  [C09_recorded_step_constraints_hold] covers these constraints; their
+    meaning under any valuation (x is leaf n, gx leaf S n): *)
+Theorem C09_linesearch_constraint_meaning :
+  forall (E : ips) (rho : nat -> E) (phi : nat -> R) (n : nat) (x0 d : pdict),
+    DictLemmas.NoDupKeys nat x0 -> DictLemmas.NoDupKeys nat d ->
+    (holds rho phi (ls_cons0 n x0) <-> inner (vsub (rho n) (evalP rho x0)) (rho (S n)) = 0) /\
+    (holds rho phi (ls_cons n d) <-> inner (evalP rho d) (rho (S n)) = 0).
+Proof. intros E rho phi n x0 d H0 Hd. split; [exact (ls_cons0_holds rho phi n x0 H0)|exact (ls_cons_holds rho phi n d Hd)]. Qed.
+Print Assumptions C09_linesearch_constraint_meaning.
+
+(** a minimiser of a differentiable F over x0 + span(ds) meets the specification: C08's orthogonality theorem *)
+Theorem C09_exact_linesearch_meets_specification :
+  forall (E : ips) (F : @dfn E) (ls : E -> list E -> E),
+    StepsSpec.gateaux F -> StepsSpec.dfn_ext F ->
+    (forall x0 ds, StepsSpec.is_linesearch F x0 ds (ls x0 ds)) ->
+    ls_spec (dgrad F) true ls.
+Proof. exact (@is_linesearch_spec). Qed.
+Print Assumptions C09_exact_linesearch_meets_specification.
+
+(** Non-vacuity: x0 = Point(); g0 = f.gradient(x0); exact_linesearch_step(x0, f, [g0]) on f(x) = x^2 *)
+Example C09_linesearch_example :
+  forall vs : (nat -> R1) * (nat -> R),
+  mwf linesearch_program minit = true /\ steps_ok sq_ls_world linesearch_program = true /\
+  Forall op_nodup linesearch_program /\
+  List.length (m_samples (mrun linesearch_program minit)) = 2%nat /\
+  List.length (m_cons (mrun linesearch_program minit)) = 2%nat /\
+  (forall f c, In (f, c) (m_cons (mrun linesearch_program minit)) ->
+     holds (fst (wrun sq_ls_world linesearch_program minit vs)) (snd (wrun sq_ls_world linesearch_program minit vs)) c) /\
+  forall (L mu : R) (qL qmu : Q), 0 <= mu < L -> smooth_strongly_convex_member mu L sq_D -> Q2R qL = L -> Q2R qmu = mu ->
+    all_satisfied (fst (wrun sq_ls_world linesearch_program minit vs)) (snd (wrun sq_ls_world linesearch_program minit vs))
+      (run_plan plan_SmoothStronglyConvexFunction
+         (fstate_of (fun p => match p with 0%nat => qL | 1%nat => qmu | _ => 0%Q end) (mrun linesearch_program minit) 0)).
+Proof. exact linesearch_example. Qed.
